@@ -22,7 +22,10 @@ assert os.path.realpath(gwf.__file__).startswith(os.path.realpath(_src)), gwf.__
 
 
 def ev(expr):
-    return eval(expr, {"Path": Path})
+    from collections import ChainMap
+    from types import MappingProxyType
+
+    return eval(expr, {"Path": Path, "MappingProxyType": MappingProxyType, "ChainMap": ChainMap})
 
 
 class FakeBackend:
@@ -47,12 +50,13 @@ def build_workflow(root, targets):
     """targets: dicts with name, ins_expr, outs_expr, spec, optional wd (absolute)"""
     wf = Workflow(working_dir=root)
     for t in targets:
+        wd = t.get("wd_spelled") or t.get("wd")
         if t.get("wd") and t.get("reassign"):
             tgt = wf.target(t["name"], inputs=ev(t["ins_expr"]), outputs=ev(t["outs_expr"])) << t.get("spec", "")
-            tgt.working_dir = t["wd"]
+            tgt.working_dir = wd
         elif t.get("wd"):
             tgt = gwf.core.Target(
-                name=t["name"], inputs=ev(t["ins_expr"]), outputs=ev(t["outs_expr"]), options={}, working_dir=t["wd"], spec=t.get("spec", "")
+                name=t["name"], inputs=ev(t["ins_expr"]), outputs=ev(t["outs_expr"]), options={}, working_dir=wd, spec=t.get("spec", "")
             )
             wf._add_target(tgt)
         else:
